@@ -334,6 +334,11 @@ class ConstrainedFitness(Fitness):
     def __ne__(self, other):
         return not self.__eq__(other)
 
+    def __deepcopy__(self, memo):
+        copy_ = super(ConstrainedFitness, self).__deepcopy__(memo)
+        copy_.constraint_violation = deepcopy(self.constraint_violation, memo)
+        return copy_
+
     def dominates(self, other):
         self_violates_constraints = _violates_constraint(self)
         other_violates_constraints = _violates_constraint(other)
